@@ -306,7 +306,8 @@ fn deserialize<'a>(ty: &OwnedDataModelType, data: &'a [u8]) -> Result<(Value, &'
                 }
             }
         }
-        OwnedDataModelType::Schema => todo!(),
+        // serde_json::Value has no representation for a schema (yet)
+        OwnedDataModelType::Schema => Err(Error::ShouldSupportButDont),
     }
 }
 
